@@ -738,7 +738,8 @@ func init() {
 	Register(&Prop{
 		ID:    "C20",
 		Title: "SETVAR/GETVAR behave as per-key registers in evaluation order",
-		Rule: "rapid draws a history: an initial variable map (possibly preset) and 1-5 queries sharing that one map; each query has a table (0-5 rows; about 2% of the tables expanded to 200-700 rows by a recipe), " +
+		Rule: "[Dimensions added in rounds p-r of the seeded-defect evaluation: GETVAR / SETVAR also inside sub queries over a table of the enclosing document (one reading / write per row of that table).] " +
+			"rapid draws a history: an initial variable map (possibly preset) and 1-5 queries sharing that one map; each query has a table (0-5 rows; about 2% of the tables expanded to 200-700 rows by a recipe), " +
 			"an optional WHERE on plain columns and 1-6 select items out of SETVAR(k, const | column | column+const | GETVAR(k') | GETVAR(k') op const | " +
 			"GETVAR(k')+column | NULL | CONCAT(GETVAR(k), column)), GETVAR(k) AS alias (incl. a key that is never set; a fifth of them inside a scalar subquery over dual) and plain columns; a quarter of the queries are wrapped in a derived table or a CTE (variables read and written inside the nested query), over keys k1..k3; a sixth are `<arm> UNION ALL <arm>` with flat or derived arms (left arm evaluated first); a quarter of the histories hold int64 values beyond 2^53 in a register (column b, key kb); histories of flat queries also construct all queries before the first runs, execute an earlier Query object again, and let the caller write into the map between queries. " +
 			"Oracle: a sequential register model evaluated row by row on the rows passing WHERE, item by item: every GETVAR column equals the model's " +
